@@ -848,6 +848,32 @@ Section C01.
     intro L. unfold SimSkel.loop_guard. rewrite run_guard_spec, (l_res _ L). apply orb_false_r.
   Qed.
 
+  (* the event phase of an iteration, on its own (used for C05: what the scheduler is shown) *)
+  Lemma events_phase_inv (st : state) :
+    LoopInv st ->
+    exists st1, events_phase st = OkS st1 /\ Inv (iter st) (queue st1) st1 /\ iter st1 = iter st /\
+                Forall (fun e => iter st < ev_ts e) (queue st1).
+  Proof.
+    intros L. set (t := iter st).
+    destruct (q_pop_current t (queue st)) as [cur rest] eqn:P.
+    destruct (q_pop_current_split _ _ _ _ P) as (Eq & Fc & Hr).
+    pose proof (l_sorted _ L) as Sq. rewrite Eq in Sq.
+    destruct (sorted_app_inv _ _ Sq) as (Sc & Sr & Kcr).
+    pose proof (l_ge _ L) as Ge. rewrite Eq in Ge. apply Forall_app in Ge. destruct Ge as (Gc & Gr).
+    assert (Tc : Forall (fun e => ev_ts e = t) cur).
+    { rewrite Forall_forall in *. intros e Ie. specialize (Fc e Ie). specialize (Gc e Ie).
+      simpl in *. fold t in Gc. lia. }
+    assert (Gr' : Forall (fun e => t < ev_ts e) rest).
+    { destruct rest as [|h r]; [constructor|]. apply sorted_tail_gt; auto. }
+    assert (I0 : Inv t (cur ++ queue (set_queue N V st rest)) (set_queue N V st rest)).
+    { red_st. rewrite <- Eq. apply Inv_weaken with (t := t - 1); [lia|].
+      destruct (l_inv _ L) as [A B C D E F]. constructor; auto. }
+    destruct (process_all_ok t cur (set_queue N V st rest) eq_refl I0 Sc Tc Sr Gr')
+      as (st1 & P1 & I1 & It1 & H1 & S1 & G1 & R1 & E1 & C1 & O1 & N1).
+    exists st1. split; [|auto].
+    unfold SimSkel.events_phase. fold t. rewrite P. exact P1.
+  Qed.
+
   (* one full iteration of the loop *)
   Lemma step_inv (st : state) :
     LoopInv st -> loop_guard st = true ->
@@ -1343,3 +1369,55 @@ Proof.
     destruct (bindS _ _ _ _); auto.
   - destruct (tail_phase _ _ _ _ s1); auto.
 Qed.
+
+(* ========================================================================================== *)
+(* Part 4: valid inputs — what is connected when the scheduler is invoked (C01 + C05)         *)
+(* ========================================================================================== *)
+Section ValidCalls.
+  Variables N V Sch : Type.
+  Variable stations : list Z.
+  Variable maxrec : option Z.
+  Variable num_view : Z -> occupancy -> N -> res V.
+  Variable num_apply : Z -> N -> Sch -> res N.
+  Variable num_charge : Z -> occupancy -> N -> res N.
+  Variable num_store : Z -> occupancy -> N -> N.
+  Variable sched : V -> Sch.
+  Variable evs : list event.
+  Hypothesis VALID : valid stations evs.
+  Notation state := (state N V).
+  Notation run := (run N V Sch stations maxrec num_view num_apply num_charge num_store sched).
+  Notation reach := (reach N V Sch stations maxrec num_view num_apply num_charge num_store sched).
+  Notation step := (step N V Sch stations maxrec num_view num_apply num_charge num_store sched).
+
+  Lemma reach_loopinv n0 (st : state) :
+    reach (init N V evs n0) st -> LoopInv N V evs st.
+  Proof.
+    induction 1 as [|st st' R IH G S].
+    - apply init_inv with (stations := stations); auto.
+    - destruct (step_inv N V Sch stations maxrec num_view num_apply num_charge num_store sched evs VALID st IH G)
+        as [(st2 & S2 & L2 & _)|(e & st2 & S2 & _)]; rewrite S in S2.
+      + inversion S2; subst. exact L2.
+      + discriminate.
+  Qed.
+
+  (* every scheduler invocation of a completed run was shown the view of a state in which exactly
+     the sessions with arrival <= t < departure are connected *)
+  Lemma call_occupancy n0 fuel (st : state) :
+    run fuel (init N V evs n0) = Done st ->
+    forall t v, In (t, v) (calls st) ->
+    exists s1 : state,
+      num_view t (occ s1) (num s1) = Ok v /\ iter s1 = t /\
+      (forall e, In (t, e) (hist st) <-> In (t, e) (hist s1)) /\
+      forall s y, occ_get s (occ s1) = Some y <->
+                  In y (sessions_of evs) /\ s_station y = s /\ s_arrival y <= t < s_departure y.
+  Proof.
+    intros R t v Iv.
+    pose proof (c05_done N V Sch stations maxrec num_view num_apply num_charge num_store sched evs n0 fuel st R) as C.
+    destruct (c_origin _ _ _ _ _ _ _ _ _ _ _ _ C t v Iv) as (s & s1 & RS & It & G & EP & RC & NV & HH).
+    pose proof (reach_loopinv n0 s RS) as L.
+    destruct (events_phase_inv N V stations evs VALID s L) as (s1' & EP' & I1 & It1 & G1).
+    rewrite EP in EP'. inversion EP'; subst s1'.
+    exists s1. split; [exact NV|]. split; [congruence|]. split; [exact HH|].
+    intros s0 y. rewrite It in *. eapply occ_char; eauto.
+  Qed.
+End ValidCalls.
